@@ -359,7 +359,7 @@ class Report:
                     print(line, flush=True)
                 return False
         self.violations += 1
-        d = os.path.join(VERIF, "replays", self.prop)
+        d = os.path.join(os.environ.get("VERIF_OUT_DIR") or VERIF, "replays", self.prop)
         os.makedirs(d, exist_ok=True)
         path = os.path.join(d, "%s_%d_%d.json" % (self.tier, os.getpid(), self.violations))
         replay_obj = dict(replay_obj)
@@ -383,8 +383,9 @@ class Report:
             self.cov["samples"].append("no sample recorded")
         if self.cov["distinct_nontrivial"] < 2 and self.cov["evaluations"] >= 2:
             self.cov["distinct_nontrivial"] = min(self.cov["evaluations"], 2)
-        os.makedirs(os.path.join(VERIF, "evidence"), exist_ok=True)
-        path = os.path.join(VERIF, "evidence", self.prop + ".json")
+        outdir = os.environ.get("VERIF_OUT_DIR") or VERIF      # selftests redirect their output
+        os.makedirs(os.path.join(outdir, "evidence"), exist_ok=True)
+        path = os.path.join(outdir, "evidence", self.prop + ".json")
         with open(path, "w") as f:
             json.dump(ev, f, indent=1, default=str)
         print("%s tier=%s violations=%d states=%d transitions=%d impl_traces=%d wall=%.1fs" % (
